@@ -240,6 +240,53 @@ def check(ctx, case):
         ctx.sample({"case": case, "queries": queries[:5]})
 
 
+def root_key_cases(ctx):
+    """an unloaded directory object at the root key (depth 0), both back ends: lookup below it and a filtered view, against
+    the index that lists the files explicitly (fixed cases that run first)"""
+    import hashlib
+    import json
+
+    from dvc_data.hashfile.hash_info import HashInfo
+    from dvc_data.hashfile.meta import Meta
+    from dvc_data.index.index import DataIndex, DataIndexEntry, ObjectStorage
+    from dvc_data.index.view import view
+
+    root = ctx.mkdtemp()
+    odb = stores.make_odb(os.path.join(root, "odb"), local=True)
+    files = {("a",): b"A-content", ("s", "b"): b"B-content"}
+    ents = {k: md5hex(c) for k, c in files.items()}
+    for c in files.values():
+        stores.put_raw(odb.path, md5hex(c), c)
+    raw = gen.canonical_listing(ents)
+    toid = md5hex(raw) + ".dir"
+    stores.put_raw(odb.path, toid, raw)
+    for backend in ("memory", "sqlite"):
+        def new(tag):
+            idx = DataIndex.open(os.path.join(root, "%s-%s.db" % (backend, tag))) if backend == "sqlite" else DataIndex()
+            idx.storage_map.add_cache(ObjectStorage((), odb))
+            return idx
+
+        def lazy(tag):
+            idx = new(tag)
+            idx[()] = DataIndexEntry(key=(), meta=Meta(isdir=True), hash_info=HashInfo("md5", toid))
+            return idx
+
+        E = new("expanded")
+        for k, h in ents.items():
+            E[k] = DataIndexEntry(key=k, meta=Meta(), hash_info=HashInfo("md5", h))
+        case = {"root_key_directory_object": True, "backend": backend}
+        ctx.case(case)
+        sig = "unloaded-directory-object-at-the-root-key"
+        for k, h in ents.items():
+            kind, v = safe_call(lambda: lazy("get-" + "-".join(k))[k].hash_info.value, expected=(KeyError,))
+            ctx.oracle(kind == "ok" and v == h, case, {"why": "lookup below an unloaded directory object at the root key differs from the expanded index",
+                                                       "key": list(k), "lazy": v if kind == "ok" else v, "expanded": h}, signature=sig)
+        kind, v = safe_call(lambda: sorted("/".join(k) for k, e in view(lazy("view"), lambda k: True).iteritems() if e.hash_info and not e.hash_info.isdir))
+        exp = sorted("/".join(k) for k, e in view(E, lambda k: True).iteritems() if e.hash_info and not e.hash_info.isdir)
+        ctx.oracle(kind == "ok" and v == exp, case, {"why": "a view of an unloaded directory object at the root key differs from the view of the expanded index",
+                                                     "lazy": v, "expanded": exp}, signature=sig)
+
+
 def run(ctx):
     ctx.rule = (
         "indexes mixing explicit files, explicit or implicit directories and 1-2 unloaded directory objects (nested listings, depth "
@@ -249,6 +296,7 @@ def run(ctx):
         "query hits a key below an unloaded directory"
     )
     ctx.assumptions = ["len() of an index before any access is not load-transparent and not part of the property"]
+    root_key_cases(ctx)
     for _ in range(ctx.n(110, 1500)):
         check(ctx, gen_case(ctx.rng))
 
